@@ -7,6 +7,7 @@ from .proto import JQC
 from .rule import ok, bad, undecided
 from .rules_lw import FieldUse
 from .rules_locks import cg, bounded_join
+from .locks import lock_sites
 from .callgraph import BLOCKING
 
 S = 'desync::scheduler::desync_scheduler::Scheduler::'
@@ -744,25 +745,36 @@ def c17(ctx):
         elif any('SchedulerCore.threads' in (set(ctx.held(s.fn).held_at_term(s.bb)) | set(H0[s.fn.name])) for s in joins):
             out.append(bad(R, key, 'threads are joined while the thread table is locked', fn=dp.name))
         else:
-            # loop condition: len > max
-            cond = False
-            for blk in dp.blocks:
-                for s in blk['stmts']:
-                    if s['k'] == 'assign' and s['rv']['k'] == 'binop' and s['rv']['op'] in ('Gt', 'Lt'):
-                        a = render(dp.expr_of_operand(s['rv']['a']))
-                        b = render(dp.expr_of_operand(s['rv']['b']))
-                        if s['rv']['op'] == 'Lt':
-                            a, b = b, a
-                        if 'len(' in a and 'max_threads' in b:
-                            cond = True
-            if cond:
-                out.append(ok(R, key, 'pops while `len > max` under the threads lock, joins outside it', fn=dp.name))
+            # the lock is released only through the "not over the maximum" edge of an exact `threads.len() > max_threads` test
+            exit_edges = set()
+            for b2, blk in enumerate(dp.blocks):
+                tt = blk['term']
+                if not tt or tt['k'] != 'switch' or blk['cleanup']:
+                    continue
+                for s_ in blk['stmts']:
+                    if s_['k'] == 'assign' and s_['rv']['k'] == 'binop' and s_['rv']['op'] in ('Gt', 'Lt', 'Ge', 'Le'):
+                        ea, eb = dp.expr_of_operand(s_['rv']['a']), dp.expr_of_operand(s_['rv']['b'])
+                        op = s_['rv']['op']
+                        if op in ('Lt', 'Le'):
+                            ea, eb = eb, ea
+                            op = 'Gt' if op == 'Lt' else 'Ge'
+                        a, b = render(ea), render(eb)
+                        exact_len = ea[0] == 'call' and ea[1].endswith('Vec::len') and 'threads' in a
+                        exact_max = eb[0] != 'binop' and 'max_threads' in b and 'len(' not in b
+                        if exact_len and exact_max and op == 'Gt':
+                            fe = [tb for v, tb in tt['targets'] if v == '0']
+                            if fe:
+                                exit_edges.add(fe[0])
+            drops = [b2 for b2, blk in enumerate(dp.blocks) if not blk['cleanup'] and blk['term'] and blk['term']['k'] == 'drop'
+                     and not blk['term']['pl']['p'] and H.guards.get(blk['term']['pl']['l']) == 'SchedulerCore.threads']
+            locks_ = [t_['target'] for b2, t_, kind, cls in lock_sites(dp) if cls == 'SchedulerCore.threads' and t_['target'] is not None]
+            if exit_edges and drops and locks_ and all(dp.must_pass(l_, set(drops), exit_edges) for l_ in locks_):
+                out.append(ok(R, key, 'the thread table is unlocked only after `threads.len() > max_threads` was found false; pops under the lock, joins outside it', fn=dp.name))
             else:
-                out.append(bad(R, key, 'the despawn loop no longer runs while `threads.len() > max_threads`', fn=dp.name))
+                out.append(bad(R, key, 'despawn can release the thread table while it still holds more than max_threads threads (no exact `threads.len() > max_threads` test guards the exit)', fn=dp.name))
     return out
 
 
-# ---------------------------------------------------------------------------------------------
 def c10_fetch(ctx):
     """A pool thread reports 'nothing to run' only when the schedule is empty: next_to_run returns None only on the empty edge of
     schedule.pop_front(), and otherwise keeps looking."""
